@@ -75,7 +75,7 @@ def zero_meta(c):
 
 def has_possibly_empty_list(spec) -> bool:
     s = sx(gram.spec_sx(spec))
-    return "(listSize 0 " in s
+    return "(listSize 0 " in s or "(listSizeNoOps 0 " in s
 
 
 def leaves_at(c, limit_depth, d=0):
